@@ -17,7 +17,9 @@ pub fn parse(s: &str) -> Result<usize, String> {
         _ => return Err("invalid unit".to_string()),
     };
 
-    Ok(number * multiple)
+    number
+        .checked_mul(multiple)
+        .ok_or_else(|| "size out of range".to_string())
 }
 
 #[cfg(test)]
